@@ -367,6 +367,11 @@ pub fn exec_op(ctx: &Arc<Ctx>, op: &Op, caller: usize, nested: bool, local: &mut
             let clean = quiet && single;
             if n > ctx.max_ever.load(SeqCst) { ctx.max_ever.store(n, SeqCst); }
             desync::verif::log("api", "SETMAX", n, String::new());
+            // on real threads the real entry point (its wake-up loop does not terminate under an unfair controlled scheduler, which is why
+            // the controlled runtime uses the raw setter plus a bounded loop)
+            #[cfg(desync_verif_real)]
+            s.set_max_threads(n);
+            #[cfg(not(desync_verif_real))]
             s.verif_set_max(n);
             if n < old {
                 if !clean { ctx.racy_max_change.store(true, SeqCst); }
@@ -375,6 +380,7 @@ pub fn exec_op(ctx: &Arc<Ctx>, op: &Op, caller: usize, nested: bool, local: &mut
                 if clean && (owned > n || live > n) { ctx.error("C17", format!("maximum lowered from {} to {} between phases and despawn_threads_if_overloaded returned: {} pool threads owned, {} alive", old, n, owned, live)); }
             }
             // raising the maximum: set_max_threads starts threads for whatever is waiting in the schedule (its loop, bounded here)
+            #[cfg(not(desync_verif_real))]
             if n > old { s.verif_kick(n + 1); }
             ctx.cur_max.store(n, SeqCst);
             return;
@@ -797,7 +803,7 @@ pub fn run_program(ctx: &Arc<Ctx>) {
     desync::verif::log("api", "END", 0, String::new());
     // Quiescence: with a pool, wait without touching the queues; without one, callers must carry the work
     if ctx.cur_max.load(SeqCst) >= 1 { ctx.wait_all(); } else {
-        for q in 0..prog.nq { if let Some(o) = ctx.obj(q) { o.sync(|_| {}); } let qo = { let g = ctx.qobjs[q].lock().unwrap(); g.clone() }; if let Some(o) = qo { desync::scheduler::sync(&o.queue, || {}); } }
+        for q in 0..prog.nq { if ctx.mons[q].panicked.load(SeqCst) { continue; } if let Some(o) = ctx.obj(q) { o.sync(|_| {}); } let qo = { let g = ctx.qobjs[q].lock().unwrap(); g.clone() }; if let Some(o) = qo { desync::scheduler::sync(&o.queue, || {}); } }
         ctx.wait_all();
     }
     desync::verif::log("api", "QUIET", 0, String::new());
